@@ -41,12 +41,12 @@ var patchValues = parseAll(patchValuesSrc)
 
 // AlphaCfg tunes the operation alphabet Σ(D).
 type AlphaCfg struct {
-	Values      []*rj.Value // for add (all pointers)
-	ReplValues  []*rj.Value // for replace
-	Kinds       map[string]bool
-	NoRootPtr   bool // leave "" out (legacy domain: no root add / copy from "")
-	OnlyAddDeep bool // C14: add paths through missing parents
-	MaxOps      int
+	Values     []*rj.Value // for add (all pointers)
+	ReplValues []*rj.Value // for replace
+	Kinds      map[string]bool
+	NoRootPtr  bool // leave "" out (legacy domain: no root add / copy from "")
+	EnsureLen  int  // >0: the alphabet is SigmaEnsure(EnsureLen, Values) instead
+	NoRootAdd  bool // drop add "" and copy from "" (not offered by the legacy package)
 }
 
 type ptrInfo struct {
@@ -153,6 +153,9 @@ func respell(v *rj.Value) *rj.Value {
 
 // Sigma builds the operation alphabet for the current reference state d.
 func Sigma(d *rj.Value, cfg *AlphaCfg) []r69.Op {
+	if cfg.EnsureLen > 0 {
+		return SigmaEnsure(cfg.EnsureLen, cfg.Values)
+	}
 	all, res := pointers(d)
 	if cfg.NoRootPtr {
 		all, res = all[1:], res[1:]
@@ -239,6 +242,9 @@ func Sigma(d *rj.Value, cfg *AlphaCfg) []r69.Op {
 	seen := map[string]bool{}
 	out := ops[:0]
 	for _, o := range ops {
+		if cfg.NoRootAdd && ((o.Kind == "add" && o.Path == "") || (o.Kind == "copy" && o.From == "")) {
+			continue
+		}
 		k := r69.OpText(o)
 		if !seen[k] {
 			seen[k] = true
@@ -250,4 +256,29 @@ func Sigma(d *rj.Value, cfg *AlphaCfg) []r69.Op {
 
 func optString(o r69.Options) string {
 	return fmt.Sprintf("neg=%v allowMissing=%v ensure=%v limit=%d escape=%v", o.Neg, o.AllowMissing, o.Ensure, o.Limit, o.EscapeHTML)
+}
+
+// SigmaEnsure: add operations whose paths run through (possibly) missing
+// parents: all token sequences of length 1..maxLen over names (incl. ones that
+// need ~0/~1), small indices, and "-" as last token.
+func SigmaEnsure(maxLen int, vals []*rj.Value) []r69.Op {
+	toks := []string{"a", "b", "a/b", "m~n", "0", "1", "2"}
+	var ops []r69.Op
+	var rec func(prefix []string)
+	rec = func(prefix []string) {
+		lasts := append(append([]string(nil), toks...), "-")
+		for _, l := range lasts {
+			p := r69.JoinPointer(append(append([]string(nil), prefix...), l))
+			for _, v := range vals {
+				ops = append(ops, r69.Op{Kind: "add", Path: p, Value: v, HasValue: true})
+			}
+		}
+		if len(prefix)+1 < maxLen {
+			for _, t := range toks {
+				rec(append(append([]string(nil), prefix...), t))
+			}
+		}
+	}
+	rec(nil)
+	return ops
 }
